@@ -175,4 +175,32 @@ def run(rep: Report, tier: str) -> None:
                                 f"`{src(c)[:70]}` is not followed by conn.unregister({nm}) on every exit of {f5.name}: the view outlives the load of its dataset, and since DuckDB's catalog is "
                                 f"case-insensitive the view of DS_1 and the view of ds_1 are one object - whichever DataFrame was registered last feeds both tables", bad))
     rep.floor("R29.5 conn.register sites", n5, 1)
+    # ---- R29.6: a name that differs from a component only in case is an unknown component for the semantic validators ----
+    rep.rule("R29.6", "validators evaluated with a case variant of an existing component (`id_2` for `Id_2`, `me_1` for `Me_1`): group by / group except, keep, drop and rename reject it "
+                      "as an unknown component - DuckDB would silently bind the quoted name to the other-case column")
+    from sa import structmodel as _sm6
+    from sa.e6 import Unmodelled as _U6
+    _M6 = _sm6.Model(P)
+    n6 = 0
+    for lab, fn in (("group by id_2", lambda d: _sm6.agg_interpreter(_M6, "Sum", d, "group by", ["id_2"])),
+                    ("group except id_2", lambda d: _sm6.agg_interpreter(_M6, "Sum", d, "group except", ["id_2"])),
+                    ("group by Id_2 (control)", lambda d: _sm6.agg_interpreter(_M6, "Sum", d, "group by", ["Id_2"])),
+                    ("keep me_1", lambda d: _sm6.clause_interpreter(_M6, "keep", d, ["me_1"])),
+                    ("drop me_1", lambda d: _sm6.clause_interpreter(_M6, "drop", d, ["me_1"])),
+                    ("rename me_1 to X", lambda d: _sm6.clause_interpreter(_M6, "rename", d, [], renames=[("me_1", "X")])),
+                    ("keep Me_1 (control)", lambda d: _sm6.clause_interpreter(_M6, "keep", d, ["Me_1"]))):
+        d6 = _M6.ds("DS_3", ["Id_1", "Id_2"], ["Me_1", "Me_2"])
+        try:
+            kind, val = fn(d6)
+        except _U6 as e:
+            raise AnalysisError(f"R29.6: validator outside the evaluator's language for `{lab}`: {e}")
+        n6 += 1
+        rep.instance("R29.6", f"case-variant/{lab}", nontrivial=True, sample={"clause": lab, "outcome": [kind, val if kind == "raise" else sorted(getattr(val, "components", {}))]})
+        control = "(control)" in lab
+        if (kind == "ok") != control:
+            rep.add(Finding("R29.6", f"R29.6/case-variant/{lab}", "src/vtlengine/Operators/Aggregation.py" if "group" in lab else "src/vtlengine/Operators/Clause.py", 1, lab,
+                            f"DS_3(Id_1, Id_2, Me_1, Me_2)[{lab}]: semantic analysis {'rejects the exact name' if control else 'accepts a name that is no component of the dataset'} "
+                            f"({kind}: {val if kind == 'raise' else sorted(getattr(val, 'components', {}))}); the generated SQL quotes the name as written and DuckDB binds it to the column of the other "
+                            f"case, so the script runs on a component it did not name"))
+    rep.floor("R29.6 validator cases", n6, 7)
     rep.assumptions = ["DuckDB identifiers are case-insensitive even when quoted (documented DuckDB behaviour; confirmed by triage/c29_case_demo.py)"]
